@@ -386,7 +386,8 @@ void ZSTD_copyDCtx(ZSTD_DCtx* dstDCtx, const ZSTD_DCtx* srcDCtx)
 static void ZSTD_DCtx_selectFrameDDict(ZSTD_DCtx* dctx) {
     assert(dctx->refMultipleDDicts && dctx->ddictSet);
     DEBUGLOG(4, "Adjusting DDict based on requested dict ID from frame");
-    if (dctx->ddict && dctx->dictUses != ZSTD_dont_use) {   /* a single-use dictionary that has served is no current dictionary */
+    if ( dctx->ddict && dctx->dictUses != ZSTD_dont_use   /* a single-use dictionary that has served is no current dictionary */
+      && dctx->ddict != dctx->ddictLocal ) {   /* the selection replaces a referenced DDict, never a dictionary loaded into the context (or a pending prefix) */
         const ZSTD_DDict* frameDDict = ZSTD_DDictHashSet_getDDict(dctx->ddictSet, dctx->fParams.dictID);
         if (frameDDict) {
             DEBUGLOG(4, "DDict found!");
